@@ -171,7 +171,7 @@ Section Quiet.
         | Raise | NoChange => True
         | Changed t' chs ds =>
             ds = [] /\ (chs = [] \/ (has_guard IfNoDiff (guards_of tb (cpipe K)) = true /\
-                                     diff (diff_base tree code (cpipe K) b t) (code (cpipe K) t') = []))
+                                     diff (diff_base tb tree code (cpipe K) b t) (code (cpipe K) t') = []))
         end
     end.
 
